@@ -826,6 +826,30 @@ static SimCase genTb()
   genEnsemble(c, 250, 4, 12);
   return c;
 }
+// turning bands on 3-D grids with structures simulated by the spectral (cosine) process: the grid recurrence of that
+// process has one increment per axis; only this support/structure combination exercises the third one
+static SimCase genTb3dGrid()
+{
+  SimCase c;
+  c.sim = SIM_TB;
+  c.ndim = 3;
+  c.nvar = 1;
+  c.grid = 1;
+  double base = G::pick<double>({1., 30.});
+  double r1 = base * G::u(0.8, 1.25);
+  // always anisotropic with a rotation: with equal meshes and an isotropic model the three increments are interchangeable
+  Struc s3 = genStruc(c.ndim, c.nvar, r1, {T_GAUSS, T_GAUSS, T_MATERN, T_STABLE}, true);
+  if (s3.type == T_MATERN && s3.param <= 0.5) s3.param = 1.5;
+  if (s3.type == T_STABLE && s3.param <= 1.) s3.param = 1.5;
+  c.st.push_back(s3);
+  if (G::pct(25)) c.st.push_back(genNugget(c.ndim, c.nvar));
+  if (G::pct(50)) c.means.push_back(G::r(-12, 12, 4));
+  c.anchors = genAnchors(c.ndim, 3, 1.0 * c.rmax(), 0.);
+  c.cpr = 2;
+  c.nb = G::i(30, 60);
+  genEnsemble(c, 250, 4, 12);
+  return c;
+}
 static SimCase genFft()
 {
   SimCase c;
@@ -909,6 +933,7 @@ static SimCase genSpde()
   return c;
 }
 VERIF_SUB(tb, SimCase, genTb, runSim);
+VERIF_SUB(tb_grid3d, SimCase, genTb3dGrid, runSim);
 VERIF_SUB(fft, SimCase, genFft, runSim);
 VERIF_SUB(spectral, SimCase, genSpectral, runSim);
 VERIF_SUB(spde, SimCase, genSpde, runSim);
